@@ -256,6 +256,50 @@ def check_position_qty(repo, rep):
     rep.floor(rid, 3)
 
 
+def check_spot_never_short(repo, rep):
+    rid = "C04-R7"
+    rep.rule(rid, "Position._on_executed_order on a spot exchange, interpreted for a sell fill against a long position of size P and against "
+                  "a flat position, for quantity <, =, > P and both reduce_only flags: the position afterwards is P - q, 0 or unchanged "
+                  "0 - never negative (no short position in a cash account; the exchange fills a sell only up to the base it holds)")
+    sell = W.enum_value(repo, "sides", "SELL")
+    limit = W.enum_value(repo, "order_types", "LIMIT")
+    cases = [("reduce", F(3), F(1)), ("close", F(3), F(3)), ("oversell", F(1), F(3)), ("flat", F(0), F(2))]
+    for name, Pv, qv in cases:
+        for ro in (False, True):
+            smp = {"P": Pv, "q": qv, "f": F(1, 100), "p": F(10), "E": F(9), "cp": F(10), "now": F(60000)}
+
+            def mk(dec):
+                it = Interp(repo, stubs=W.base_stubs(), samples=[dict(smp)], nonneg=set(smp), decisions=dec)
+                ex = Obj("SpotExchange", name="exchange", attrs={"type": "spot", "fee_rate": A("f")}, open_world=True)
+                strat = Obj("Strategy", name="strategy", attrs={}, open_world=True)
+                W.bind(strat, "_on_updated_position", lambda i, a, k: None)
+                pos = W.obj_of(repo, POSITION, "Position", "position", {
+                    "qty": A("P") if Pv else num(0), "previous_qty": num(0), "entry_price": A("E") if Pv else None, "exit_price": None,
+                    "current_price": A("cp"), "opened_at": None, "closed_at": None, "exchange": ex, "exchange_name": "Sandbox",
+                    "symbol": SYM, "strategy": strat, "id": "pos"})
+                trades = Obj("ClosedTrades", name="store.completed_trades", attrs={}, open_world=True)
+                W.bind(trades, "open_trade", lambda i, a, k: None)
+                W.bind(trades, "close_trade", lambda i, a, k: None)
+                it.overrides[f"{W.STORE}:store"] = Obj("StoreClass", name="store", attrs={"completed_trades": trades}, open_world=True)
+                o = W.make_order(repo, "O", sell, limit, -A("q"), A("p"), reduce_only=ro, status=W.enum_value(repo, "order_statuses", "EXECUTED"), symbol=SYM)
+                it.pos = pos
+                return it, lambda it: it.call(it.getattr(pos, "_on_executed_order"), [o], {})
+            for out in explore(mk, 32):
+                key = f"{name}|reduce_only={ro}"
+                if out.kind != "return":
+                    rep.violation(rid, f"spot-sell|{key}|raises", f"Position._on_executed_order (spot, sell, {key}) raises {out.value}")
+                    continue
+                got = out.interp.pos.attrs["qty"]
+                want = {"reduce": A("P") - A("q"), "close": num(0), "oversell": num(0), "flat": num(0)}[name]
+                gv = out.interp.numeric(got, smp) if isinstance(got, R) else None
+                if gv is None or gv < 0:
+                    rep.violation(rid, f"spot-sell|{name}|negative", f"spot: a sell of {qv} against a position of {Pv} (reduce_only={ro}) leaves the position size {got!r} - a short position in a cash account")
+                elif not got.same(want):
+                    rep.violation(rid, f"spot-sell|{key}", f"spot: a sell of {qv} against a position of {Pv} (reduce_only={ro}) leaves the position size {got!r}, expected {want!r}")
+                rep.instance(rid, key, {"case": key, "qty": repr(got)})
+    rep.floor(rid, 8)
+
+
 def check_decimal_discipline(repo, rep):
     rid = "C04-R5"
     rep.rule(rid, "decimal discipline: every store to assets / stop_orders_sum / limit_orders_sum in SpotExchange's "
@@ -340,8 +384,12 @@ def run(repo: Repo, rep, tier: str):
     rep.guarded(check_handlers, repo, rep)
     rep.guarded(check_sequences, repo, rep)
     rep.guarded(check_position_qty, repo, rep)
+    rep.guarded(check_spot_never_short, repo, rep)
     rep.guarded(check_decimal_discipline, repo, rep)
     rep.undecided_item("non-negativity of balances as a numeric invariant over arbitrarily long histories (follows from the rejection rule in exact arithmetic; float rounding of Decimal(str(.)) not modelled)")
+    rep.undecided_item("IEEE rounding inside sum_floats / subtract_floats: they convert back to a double after every step, so running totals of quantities with 16-17 significant "
+                       "digits (thirds of a position) need not return to their start after submit ; cancel - observed by a dynamic defect hunt (findings/hunters/c04/finding_1.py, "
+                       "finding_3.py: a sell of exactly the base balance rejected as 2.0000000000000004 > 2.0); outside what this real-arithmetic analysis decides")
 
 
 CLAIM = {
